@@ -10,6 +10,8 @@
    {"ev":"write","fields":[12 strings the struct stands for],"orig":[..],"nul":bool (a field
     or orig contains NUL),"out":"ok"|"err"|"panic","ref":{"ok":bool,"orig":[..],"fields":[[..]]}}
         WriteHostname output read back by the harness's Floodgate-style reference decoder
+        ("kind":"held": an Encrypt result kept while later ones were made, decoded afterwards;
+         "kind":"concurrent": written while other goroutines wrote through the same Floodgate)
    Strings are sequences of byte values. *)
 EXTENDS Floodgate, TraceLib
 
